@@ -35,6 +35,7 @@ class Slice:
         self.repo, self.fi, self.cfg = repo, fi, cfg
         self.chain: List[Tuple[str, str]] = []
         self.unknown: Optional[str] = None
+        self.forks = []          # [(defining CFG node, Slice of the continuation)] when the slice splits by branch
 
     def add(self, prim: str, detail: str = ""):
         self.chain.append((prim, detail))
@@ -140,7 +141,9 @@ class Slice:
                     subs.append(sub)
                 forms = {(tuple(p for p, _ in sub.chain), sub.unknown) for sub in subs}
                 if len(forms) != 1:
-                    self.unknown = f"`{e.id}` has {len(defs)} reaching definitions of different forms"
+                    # alternatives of different forms (one per branch): the slice forks here; each continuation is judged
+                    # on its own, at the representation level that holds where that definition is made
+                    self.forks = [(d, sub) for d, sub in zip(defs, subs)]
                     return
                 for i, (prim, _) in enumerate(subs[0].chain):
                     self.chain.append((prim, "|".join(sorted({sub.chain[i][1] for sub in subs if sub.chain[i][1]}))))
@@ -342,16 +345,20 @@ def samp_e(repo: Repo) -> List[Ob]:
                 continue
             sl = Slice(repo, fi, cfg)
             sl.follow(p, node)
-            cases = [(lvl, sl)]
-            if sl.unknown and "reaching definitions of different forms" in sl.unknown and isinstance(p, ast.Name):
-                # one definition per representation level (a helper with `if Vector: return …  return …` spliced in):
-                # judge every definition at the level that holds where it is made
-                cases = []
-                for d in [d for d in cfg.reaching_defs(node, p.id) if d is not cfg.entry]:
+            cases = []
+
+            def flatten(prefix, slc, level):
+                if not slc.forks:
+                    whole = Slice(repo, fi, cfg)
+                    whole.chain = prefix + slc.chain
+                    whole.unknown = slc.unknown
+                    cases.append((level, whole))
+                    return
+                for d, sub in slc.forks:
                     dl = set(lv.get(d, frozenset())) - {0}
-                    sub = Slice(repo, fi, cfg)
-                    sub.follow_def(d, p.id, 0)
-                    cases.append(("Vector" if dl == {1} else "Matrix" if dl == {2} else "level?", sub))
+                    l2 = "Vector" if dl == {1} else "Matrix" if dl == {2} else level
+                    flatten(prefix + slc.chain, sub, l2)
+            flatten([], sl, lvl)
             results = [_judge_born(fi, cfg, node, l_, s_, gen_ok) for l_, s_ in cases]
             dets = "; ".join(f"{l_}: {r[2]}" for (l_, _), r in zip(cases, results)) if len(cases) > 1 else results[0][2]
             if any(r[0] == "skip" for r in results):
@@ -632,6 +639,8 @@ def collapse(repo: Repo) -> List[Ob]:
 
 # ------------------------------------------------------------------------------------ MEASURE-SET
 def _eval_guard(e: ast.AST, env: Dict[str, object]) -> Optional[bool]:
+    if isinstance(e, ast.Call) and isinstance(e.func, ast.Name) and e.func.id == "bool" and len(e.args) == 1 and not e.keywords:
+        return _eval_guard(e.args[0], env)
     if isinstance(e, ast.BoolOp):
         vals = [_eval_guard(v, env) for v in e.values]
         if any(v is None for v in vals):
@@ -855,19 +864,24 @@ def pair(repo: Repo) -> List[Ob]:
                        "an envelope stored as (polarization, fock) is listed as (fock, polarization)"))
     # Envelope.reorder: transposition and index swap in the same branch
     ro = repo.func("Envelope.reorder")
-    for c in [n for n in walk_no_nested(ro.node) if isinstance(n, ast.If) and "expansion_level" in src(n.test)]:
-        tr = [x for b in c.body for x in [b] + list(walk_no_nested(b)) if isinstance(x, ast.Call) and (call_np(x) == "transpose" or (method_call(x) and method_call(x)[1] == "transpose"))]
-        if not tr:
+    rcfg, rlv = self_levels(ro)
+    swaps = {nd for nd in rcfg.nodes if nd.kind == "stmt" and isinstance(nd.ast, ast.Assign) and isinstance(nd.ast.targets[0], ast.Tuple)
+             and {src(e) for e in nd.ast.targets[0].elts} == {"self.fock.index", "self.polarization.index"}
+             and isinstance(nd.ast.value, ast.Tuple) and [src(e) for e in nd.ast.value.elts] == [src(e) for e in reversed(nd.ast.targets[0].elts)]}
+    for tn in sorted([nd for nd in rcfg.nodes for x in walk_node(nd) if isinstance(x, ast.Call) and (call_np(x) == "transpose" or (method_call(x) and method_call(x)[1] == "transpose"))], key=lambda nd: nd.lineno):
+        tr = next(x for x in walk_node(tn) if isinstance(x, ast.Call) and (call_np(x) == "transpose" or (method_call(x) and method_call(x)[1] == "transpose")))
+        levels = set(rlv.get(tn, frozenset())) - {0}
+        if levels not in ({1}, {2}):
             continue
         n_pairs += 1
-        lvl = "Vector" if "Vector" in src(c.test) else "Matrix"
-        perm = src(tr[0].args[-1]) if tr[0].args else ""
+        lvl = "Vector" if levels == {1} else "Matrix"
+        perm = src(tr.args[-1]) if tr.args else ""
         want = "(1, 0)" if lvl == "Vector" else "(1, 0, 3, 2)"
-        swap = any(isinstance(b, ast.Assign) and isinstance(b.targets[0], ast.Tuple) and {src(e) for e in b.targets[0].elts} == {"self.fock.index", "self.polarization.index"}
-                   and isinstance(b.value, ast.Tuple) and [src(e) for e in b.value.elts] == [src(e) for e in reversed(b.targets[0].elts)] for b in c.body)
+        # the two member indices are exchanged on every path that leaves the transposition
+        swap = bool(swaps) and rcfg.always_followed_by(tn, swaps)
         good = perm.replace("[", "(").replace("]", ")") == want and swap
-        (obs.append(ok("PAIR", ro, f"transpose-swap@{lvl}", P, tr[0], "axes are exchanged and the two indices swapped in the same branch")) if good else
-         obs.append(bad("PAIR", ro, f"transpose-swap@{lvl}", P, tr[0], f"permutation {perm} / index swap present={swap}: tensor axes and member indices are not exchanged together (expected {want} with a swap)")))
+        (obs.append(ok("PAIR", ro, f"transpose-swap@{lvl}", P, tr, "axes are exchanged and the two indices swapped on every path")) if good else
+         obs.append(bad("PAIR", ro, f"transpose-swap@{lvl}", P, tr, f"permutation {perm} / index swap present={swap}: tensor axes and member indices are not exchanged together (expected {want} with a swap)")))
     # ProductState.reorder: state_objs replaced by the list the string was generated for
     pr = repo.func("ProductState.reorder")
     pcfg = CFG(pr.node)
